@@ -87,6 +87,50 @@ Theorem C10_relink_no_ties_alone_refuted : exists n R R',
 Proof. exact relink_no_ties_alone_refuted. Qed.
 Print Assumptions C10_relink_no_ties_alone_refuted.
 
+(* ---- qualifier-level codecs ---- *)
+
+(* the aStool qualifier: SubRegion / Protocluster write the tool name, the sideloaded variants write
+   "externally annotated by: " ++ tool; from_biopython (startswith test, split(": ", 1)[1]) gives back
+   the class and the full tool name - whatever the name contains (": ", quotes, ...) - provided the
+   name itself does not start with "externally annotated" *)
+Theorem C10_astool_codec : forall side tool, starts_with ext_prefix tool = false ->
+  astool_decode (astool_text side tool) = Ok (side, tool).
+Proof. exact astool_codec. Qed.
+Print Assumptions C10_astool_codec.
+
+(* without that proviso the statement is false: the sideloaded tool "externally annotated by me" is
+   written but reading recurses without end (RecursionError, a RuntimeError); the ordinary subregion
+   tool "externally annotated: x" reads back as the sideloaded tool "x"; "externally annotated" alone
+   raises IndexError (known finding sideloaded_tool_prefix_recursion) *)
+Theorem C10_astool_prefix_refuted :
+  astool_decode (astool_text true W_tool_rec) = Err E_Runtime /\
+  astool_decode (astool_text false W_tool_plain) = Ok (true, [120]) /\
+  astool_decode (astool_text false ext_prefix) = Err E_Index.
+Proof. exact astool_prefix_refuted. Qed.
+Print Assumptions C10_astool_prefix_refuted.
+
+(* number lists (protoclusters, candidate_cluster_numbers, subregion_numbers): [int(t) for t in
+   [str(n) for n in numbers]] = numbers, in the written order *)
+Theorem C10_numbers_codec : forall l, numbers_parse (numbers_text l) = Ok l.
+Proof. exact numbers_codec. Qed.
+Print Assumptions C10_numbers_codec.
+
+(* gene functions: from_string(str(annotation)) = annotation, through the model of _parse_format's
+   regular expression (non-greedy fields, optional spaces, the four-field form tried first), when the
+   tool has no white space and no ")", texts have no line break, a product has no ":" and - without
+   product - neither tool nor description has a ":" and the function is not CORE *)
+Theorem C10_gene_function_codec : forall g, wf_gfa g = true -> gfa_parse (gfa_text g) = Ok g.
+Proof. exact gfa_codec. Qed.
+Print Assumptions C10_gene_function_codec.
+
+(* the two text forms overlap: ADDITIONAL (smcogs) "SMCOG1001: thing" without product reads back
+   with product "SMCOG1001" and description "thing"; both print the same text
+   (known finding gene_function_description_colon) *)
+Theorem C10_gene_function_colon_refuted :
+  gfa_parse (gfa_text W_gfa) = Ok W_gfa' /\ W_gfa' <> W_gfa /\ gfa_text W_gfa' = gfa_text W_gfa.
+Proof. exact gfa_colon_refuted. Qed.
+Print Assumptions C10_gene_function_colon_refuted.
+
 (* ---- non-vacuity ---- *)
 Example C10_ex_loc_codec :
   let t := TCompound join_text [mkTpart (mkTpos 1 994) (mkTpos 0 1000) 1; mkTpart (mkTpos 0 0) (mkTpos 2 357) 1] in
@@ -104,3 +148,13 @@ Proof. vm_compute. repeat split; reflexivity. Qed.
 
 Example C10_ex_guard_ring : guard 400 W_ring = true /\ bridges (cloc (hd (mkCand 0 [] []) (cands W_ring))) = true.
 Proof. vm_compute. split; reflexivity. Qed.
+
+(* a tool name holding ": " satisfies the guard of C10_astool_codec; a CORE annotation with product
+   and a description holding ": " satisfies the guard of C10_gene_function_codec *)
+Example C10_ex_astool : starts_with ext_prefix W_tool_colon = false /\
+  astool_decode (astool_text true W_tool_colon) = Ok (true, W_tool_colon).
+Proof. split; reflexivity. Qed.
+
+Example C10_ex_gene_function :
+  wf_gfa (mkGfa 1 [115; 109; 99; 111; 103; 115] (Some [84; 49; 80; 75; 83]) [97; 58; 32; 98]) = true.
+Proof. reflexivity. Qed.
